@@ -8,6 +8,7 @@ use crate::rec;
 use crate::util::*;
 use base::api::*;
 use base::json::J;
+use base::refmodel as rf;
 
 /// byte-granular, stateful front-ends: the byte-level stream ciphers and the buffered CFB types
 pub fn byte_frontends<'a>(cfg: &'a Cfg) -> Vec<(String, Dir, Fe<'a>)> {
@@ -241,7 +242,70 @@ pub fn run(ctx: &Ctx) -> Outcome {
         }
         rep.finish()
     });
+    // ---- chunking from a position reached by a seek (far positions included): byte-level seekable ciphers ----
+    let seek_units: Vec<(&Cfg, &CoreDesc)> = cfgs.iter().flat_map(|c| c.cores.iter().filter(|d| d.seekable).map(move |d| (*c, d))).collect();
+    let rseek = par_map(&seek_units, |(cfg, d)| {
+        let mut rep = Report::new(format!("{}/{}/after-seek", cfg.name, d.mode));
+        let bs = cfg.bs;
+        let key = &keys(seed, cfg.key_len)[0];
+        let c = rf::Ciph::new(cfg, key);
+        let iv = pattern(seed, 0x1717, bs);
+        let l = if bs <= 16 { 3 * bs + 2 } else { 2 * bs + 2 };
+        let data = pattern(seed, 0xC08E, l);
+        let limit = rf::ctr_limit_blocks(d.w);
+        // start positions (block, byte): near the start, past 2^32 and past 2^64 blocks where the counter reaches
+        let mut starts: Vec<(u128, usize)> = vec![(7, 3 % bs), (1, 0)];
+        for b in [(1u128 << 32) + 1, (1u128 << 64) + 2] {
+            if b + 8 < limit && b.checked_mul(bs as u128).is_some() {
+                starts.push((b, (bs / 2).max(1) % bs));
+            }
+        }
+        let cutpts = boundary_points(bs, l);
+        for (blk, byte) in starts {
+            let pos = blk * bs as u128 + byte as u128;
+            let ks = if d.mode == "belt" { rf::belt_ks(&c, &iv, blk, byte, l) } else { rf::ctr_ks(&c, &iv, d.w, d.be, blk, byte, l) };
+            let want = rf::x(&data, &ks);
+            // all schedules with <= 2 cuts at block-boundary neighbourhoods, alternating call forms; plus a seek back into the
+            // current block between two pieces (the bytes must not change)
+            let mut cutsets: Vec<Vec<usize>> = vec![vec![]];
+            for (i, &a) in cutpts.iter().enumerate() {
+                cutsets.push(vec![a]);
+                for &b in &cutpts[i + 1..] {
+                    cutsets.push(vec![a, b]);
+                }
+            }
+            for cuts in &cutsets {
+                for reseek in [false, true] {
+                    if reseek && cuts.is_empty() {
+                        continue;
+                    }
+                    rep.case(|| {
+                        let mut st = crate::rec::stream(cfg, d, key, &iv);
+                        ensure!(st.seek(SeekTy::U128, pos) == Some(Ok(())), format!("seek_refused/{}", d.mode), "{}: seek to byte {} refused", d.ty, pos);
+                        let mut out = vec![];
+                        let mut prev = 0;
+                        for (i, &cpt) in cuts.iter().chain(std::iter::once(&l)).enumerate() {
+                            if reseek && i == 1 {
+                                // seek to where we already are (a position inside / at the edge of the block just consumed)
+                                ensure!(st.seek(SeekTy::U128, pos + prev as u128) == Some(Ok(())), format!("seek_refused/{}", d.mode), "{}: seek to the current position refused", d.ty);
+                            }
+                            let mut o = data[prev..cpt].to_vec();
+                            let kind = [Kind::InPlace, Kind::B2b, Kind::Alias][i % 3];
+                            let inp = o.clone();
+                            ensure!(st.apply(kind, &inp, &mut o).is_ok(), format!("request_refused/{}", d.mode), "{}: request refused far from the limit", d.ty);
+                            out.extend(o);
+                            prev = cpt;
+                        }
+                        ensure!(out == want, format!("output/{}/stream-after-seek", d.mode), "{} after seek to block {} byte {}: pieces cut at {:?}{}: {} differs from the reference keystream applied in one piece {} (first diff at byte {:?})", d.ty, blk, byte, cuts, if reseek { " with a seek to the current position before the second piece" } else { "" }, short(&out), short(&want), first_diff(&out, &want));
+                        Ok(())
+                    });
+                }
+            }
+        }
+        rep.finish()
+    });
     let mut o = merge(reports);
+    extend(&mut o, merge(rseek));
     o.rule = "per byte-level stream cipher (six CTR aliases, Ofb, BeltCtr) and buffered CFB encryptor/decryptor: (1) stateless: ALL compositions of short strings into pieces, additionally with an empty piece inserted at every gap, all in place and alternating in place / b2b; (2) deviation-bounded: every set of <= k cut points on a 3*bs+2 byte string; (3) merged BFS over piece lengths (0..2bs+1 for small blocks, the boundary set otherwise) x call form, singleton canonical state per offset (key = bytes consumed + output of a 1.5-block probe); (4) one-shot CFB / CFB-8: for every pair L' < L, out(m[..L']) equals the L'-prefix of out(m) for two different continuations. Oracle: the single-call result = reference keystream / recurrence".into();
     o.configs = cfgs.iter().map(|c| c.name.clone()).collect();
     o.bounds = vec![("composition_len".into(), J::Str(tier.pick("8 (bs<=5), bs+2 (bs<=8)", "11 (bs<=5), bs+4 (bs<=8), bs+2 (bs<=16)").into())), ("deviation_len".into(), J::Str("3*bs+2".into())), ("max_split_deviations".into(), J::Str(tier.pick("2", "3 when L<=64 else 2").into())), ("bfs_len".into(), J::Str("3*bs+2".into()))];
